@@ -270,6 +270,7 @@ class Session:
         # from here on nothing may change provider state behind our back: renew far into the future, stop the consumer's
         # renew thread and the periodic self-check worker of the example alarm provider (commits a transaction every few seconds)
         self.stopped_workers = 0
+        self.pending_stuck = False
         for product in self.dev.product_lookup.values():
             for obj in _walk(product):
                 d = getattr(obj, '__dict__', {})
@@ -372,13 +373,18 @@ class Session:
         """wait until asynchronous effects of an accepted request (sco worker, subscription housekeeping) are through"""
         last, since = self.fingerprint(), time.time()
         deadline = time.time() + 6
+        pending = False
         while time.time() < deadline:
             time.sleep(0.01)
             cur = self.fingerprint()
-            if cur != last or self._pending():
+            pending = not self.pending_stuck and self._pending()
+            if cur != last or pending:
                 last, since = cur, time.time()
             elif time.time() - since >= quiet:
-                break
+                return last
+        if pending:
+            # an unsubscribed / invalid subscription is not removed any more (housekeeping thread gone?): do not wait for it again
+            self.pending_stuck = True
         return last
 
     def changes_state(self, send):
@@ -1065,6 +1071,10 @@ def _sample_once(kind, status):
     return True
 
 
+def _enough(ctx):
+    return any(k.startswith('oracle-failure:') and v >= 3 and not k.endswith('do_post:reply-path-unguarded') for k, v in ctx.hist.items())
+
+
 def mutation_stream(ctx, sess):
     rng = ctx.subrng('mutations')
     pool = sess.requests
@@ -1082,6 +1092,8 @@ def mutation_stream(ctx, sess):
     sample_every = 10 if ctx.tier == 'quick' else 6
     for i in range(n):
         rec = types_[i % len(types_)] if i < 4 * len(types_) else rng.choice(pool)
+        if _enough(ctx):
+            break
         kind, path, body, ent = mutate_request(rng, sess, rec, pool)
         if _is_state_changing_valid(kind, rec):
             kind = 'valid'
@@ -1090,6 +1102,8 @@ def mutation_stream(ctx, sess):
     pooln = sess.notifications
     if pooln:
         for i in range(ctx.n(400, 3500)):
+            if _enough(ctx):
+                break
             rec = rng.choice(pooln)
             kind, path, body, ent = mutate_request(rng, sess, rec, pooln)
             post_real(ctx, sess, sess.c_mw, 'consumer', kind, path, body, ent)
@@ -1298,6 +1312,8 @@ def http_stream(ctx, sess, L):
                                    logger=mock.MagicMock())
     pool = sess.requests
     for i in range(ctx.n(400, 3500)):
+        if _enough(ctx):
+            break
         rec = rng.choice(pool)
         body, path = rec['body'], rec['path']
         k = rng.randrange(14)
@@ -1428,8 +1444,16 @@ def _cls_of(name):
     return name.split('(')[0]
 
 
+THREAD_EXCEPTIONS = []
+
+
+def _thread_excepthook(args):
+    THREAD_EXCEPTIONS.append(f'{args.thread.name if args.thread else "?"}: {args.exc_type.__name__}: {str(args.exc_value)[:120]}')
+
+
 def run(ctx):
     global LISTENER
+    threading.excepthook = _thread_excepthook     # recorded in the evidence (threads of the library that died), not printed
     os.makedirs(core.OUT, exist_ok=True)
     with open(SECRET_FILE, 'w') as f:
         f.write(SECRET)
@@ -1452,7 +1476,8 @@ def run(ctx):
         http_stream(ctx, sess, L)
         parser_oracle(ctx)
     finally:
-        pass
+        ctx.notes['housekeeping_stalled'] = sess.pending_stuck
+        ctx.notes['library_threads_died'] = THREAD_EXCEPTIONS[:10]
     # core.run_check starts the deeper search only when there is no oracle failure at all; the replayed negative witness
     # (known finding) is always one, so start it here when the proof / correspondence broke and nothing unknown failed yet
     unknown = [f for f in ctx.failures if f['signature'] != 'do_post:reply-path-unguarded']
